@@ -9,24 +9,28 @@ ASSUME = ["user actions give the file they write a current modification time (lo
 
 WIDE = "Edit,Touch,DeleteArt,Truncate,StripKey,Replace,MakeCsr,EditProfile,Expire"
 ISSUER = "Edit,Touch,DeleteArt,Truncate,StripKey,Replace,MakeCsr,SetIssuer"      # + the user edits the issuer relation
-FULL = WIDE + ",SetIssuer"
+FULL = WIDE + ",SetIssuer,RemoveConfig,AddConfig"
+CONFIG = "Edit,DeleteArt,StripKey,SetIssuer,RemoveConfig,AddConfig"               # + configurations deleted and put back
 
 
 def run(ctx, replay=None):
     if ctx.quick:
         mc = [dict(shape="chain", max_env=2),
               dict(shape="chain", max_env=2, flagsets="ExpiryFlagSets", env="WideEnv"),          # + profile edits and expiry
-              dict(shape="chain", max_env=2, flagsets="DefaultAndMissing", env="IssuerEnv")]     # + issuer edits
+              dict(shape="chain", max_env=2, flagsets="DefaultAndMissing", env="IssuerEnv"),     # + issuer edits
+              dict(shape="chain", max_env=2, flagsets="DefaultAndMissing", env="ConfigEnv")]     # + configurations deleted / put back
         ex = [dict(shape="chain", max_env=2, flags="m,c,o", extra="a", faults=False),
               dict(shape="chain", max_env=1, flags="m,c,e", faults=False, env=WIDE),
               dict(shape="chain", max_env=2, flags="m,c", faults=False, env="EditProfile,Expire,Edit"),
               dict(shape="chain", max_env=2, flags="m,c", faults=False, env="SetIssuer,Edit,DeleteArt,StripKey"),
-              dict(shape="two", max_env=1, flags="m,c,o", faults=False, env=ISSUER)]
+              dict(shape="two", max_env=1, flags="m,c,o", faults=False, env=ISSUER),
+              dict(shape="chain", max_env=3, flags="m,c", faults=False, env="Edit,RemoveConfig,AddConfig")]
     else:
         mc = [dict(shape="chain", max_env=3), dict(shape="star", max_env=3), dict(shape="two", max_env=3),
               dict(shape="chain", max_env=3, flagsets="ExpiryFlagSets", env="WideEnv"), dict(shape="star", max_env=2, flagsets="NoAllFlagSets", env="WideEnv"),
               dict(shape="chain", max_env=2, env="FullEnv", flagsets="NoAllFlagSets"), dict(shape="chain", max_env=3, env="IssuerEnv"),
-              dict(shape="star", max_env=3, env="IssuerEnv"), dict(shape="two", max_env=3, env="IssuerEnv")]
+              dict(shape="star", max_env=3, env="IssuerEnv"), dict(shape="two", max_env=3, env="IssuerEnv"),
+              dict(shape="chain", max_env=3, env="ConfigEnv"), dict(shape="star", max_env=3, env="ConfigEnv", alt="StarAlt")]
         ex = [dict(shape="chain", max_env=3, flags="m,c,o", extra="a;c,e,m", faults=False),
               dict(shape="star", max_env=2, flags="m,c,o", extra="a", faults=False),
               dict(shape="two", max_env=2, flags="m,c,o", extra="a", faults=False),
@@ -35,6 +39,8 @@ def run(ctx, replay=None):
               dict(shape="chain", max_env=2, flags="m,c,o", faults=False, env=ISSUER),
               dict(shape="star", max_env=2, flags="m,c", faults=False, env=ISSUER),
               dict(shape="two", max_env=2, flags="m,c", faults=False, env=ISSUER),
+              dict(shape="chain", max_env=3, flags="m,c", faults=False, env=CONFIG),
+              dict(shape="star", max_env=3, flags="m,c", extra="c,m,o", faults=False, env="Edit,RemoveConfig,AddConfig,DeleteArt"),
               dict(shape="chain", max_env=0, flags="m,c,o,e", extra="a", faults=True, random_walks=4000, walk_len=12, env=FULL),
               dict(shape="star", max_env=0, flags="m,c,o,e", extra="a", faults=True, random_walks=2000, walk_len=12, env=FULL),
               dict(shape="chain", max_env=2, flags="m", extra="c,m;c,m,o", faults=False, native=True, env=WIDE)]
